@@ -505,7 +505,26 @@ func checkSkipTenant(c SkipTenantCase, cv *cov) (v *evid.Violation) {
 				return
 			}
 			if c.Cycle {
-				sd.Release()
+				if i%2 == 1 {
+					// the last call before the decoder goes back to its pool is rejected by the grammar (an unknown
+					// type tag; nothing is consumed). Giving the DECODER back must not touch the READER: its ReadLen
+					// and every result handed out so far stay as they are until the reader itself is released
+					rl := br.ReadLen()
+					if _, e := sd.Next(thrift.TType(0x40)); e == nil {
+						v = evid.Failf("SkipDecoder.Next accepted type tag 0x40")
+						return
+					}
+					sd.Release()
+					if br.ReadLen() != rl {
+						v = evid.Failf("after value %d: SkipDecoder.Release (following a Next that was rejected for an unknown type) changed the reader's ReadLen from %d to %d", i, rl, br.ReadLen())
+						return
+					}
+					if v = verify(fmt.Sprintf("after value %d and SkipDecoder.Release following a rejected Next", i)); v != nil {
+						return
+					}
+				} else {
+					sd.Release()
+				}
 				sd = thrift.NewSkipDecoder(br)
 			}
 			if i < len(c.Release) && c.Release[i] {
@@ -611,7 +630,7 @@ func TestC09_SkipDecoders(t *testing.T) {
 // TestC09_Big: the same three co-tenant checks with requests, payloads and values of 64 KiB .. 16 MiB, so
 // that buffers of the large size classes are handed out, retained, outgrown and recycled.
 func TestC09_Big(t *testing.T) {
-	rec := evid.New("C09", "c09_big", "enumeration: for n in {2^k+1 : k = 16..24}: reader histories {Next 100; Next n; Peek 9; Release; Next 100} and {Next n; Next n/2; Release; Next 7} (io.Reader-backed) and a bytes reader over an n-byte slice of power-of-two capacity with a failing over-read; writer histories {Malloc 100; WriteBinary n-1 (payload of exactly 2^k bytes in a power-of-two capacity buffer); Malloc n/2; Flush; Malloc 100; Flush} and {WriteBinary 2^k first; Malloc 100; Malloc 5000; Flush; WriteBinary 2^k; WriteBinary 10; Flush}; skip-decoder cases {values n, 10, n/2; with and without pool cycling; with a failed decode of a truncated n-byte value on a pooled decoder in between} for both stream skip decoders; co-tenant covers size classes up to 4n; distinct by construction")
+	rec := evid.New("C09", "c09_big", "enumeration: for n in {2^k+1 : k = 16..24}: reader histories {Next 100; Next n; Peek 9; Release; Next 100}, {Next n; Next n/2; Release; Next 7} and {Peek n; Peek 2n+3; Peek 4n; Next 10; Release; Peek 50; Peek n/2; Peek 3n+1; Next 3n; Release} (io.Reader-backed) and a bytes reader over an n-byte slice of power-of-two capacity with a failing over-read; writer histories {Malloc 100; WriteBinary n-1 (payload of exactly 2^k bytes in a power-of-two capacity buffer); Malloc n/2; Flush; Malloc 100; Flush} and {WriteBinary 2^k first; Malloc 100; Malloc 5000; Flush; WriteBinary 2^k; WriteBinary 10; Flush}; skip-decoder cases {values n, 10, n/2; with and without pool cycling; with a failed decode of a truncated n-byte value on a pooled decoder in between} for both stream skip decoders; co-tenant covers size classes up to 4n; distinct by construction")
 	defer rec.Flush()
 	bt := evid.NewBatch()
 	shard, nshards := evid.Shard()
@@ -631,6 +650,8 @@ func TestC09_Big(t *testing.T) {
 			{Total: n + 300, Plan: plan, Tenant: 1 + k%3, Ops: []ROp{{"next", 100}, {"next", n}, {"peek", 9}, {"release", 0}, {"next", 100}}},
 			{Total: n + n/2 + 50, Plan: plan, Tenant: 1 + (k+1)%3, Ops: []ROp{{"next", n}, {"next", n / 2}, {"release", 0}, {"next", 7}}},
 			{Bytes: true, Total: n - 1, Cap: n - 1, Tenant: 2, Ops: []ROp{{"next", 10}, {"next", n}, {"peek", n + 5}, {"release", 0}, {"next", 10}, {"release", 0}}},
+			// only Peek since the start / since the last Release: the peeked slices are held while the buffer grows twice
+			{Total: 4*n + 100, Plan: plan, Tenant: 1 + k%3, Ops: []ROp{{"peek", n}, {"peek", 2*n + 3}, {"peek", 4 * n}, {"next", 10}, {"release", 0}, {"peek", 50}, {"peek", n / 2}, {"peek", 3*n + 1}, {"next", 3 * n}, {"release", 0}}},
 		}
 		for _, c := range readers {
 			var cv cov
